@@ -210,7 +210,7 @@ Proof.
   revert T tot. induction O as [|o O IH]; intros T tot S; cbn [fold_left existsb sum_size fold_right].
   - rewrite filter_true_id; [f_equal; lia|reflexivity].
   - cbn [items total]. rewrite (l0_delete_filter _ _ S). rewrite IH; [|apply ssorted_filter, S].
-    rewrite filter_filter. f_equal; [|lia].
+    rewrite filter_filter. f_equal; [|unfold sum_size; lia].
     apply filter_ext_in'. intros y _. destruct (same o y); cbn; reflexivity.
 Qed.
 
@@ -220,7 +220,7 @@ Proof.
   intros D V Hy. apply filter_In in Hy as [Hy NO]. unfold same.
   destruct (key_eqb_spec (r_start y) (r_start r)) as [E|]; [|reflexivity].
   exfalso. apply negb_true_iff in NO. rewrite (proj2 (overlaps_iff y r)) in NO; [discriminate|].
-  pose proof (ds_valid _ _ D Hy) as Vy. apply validP_cases in Vy. apply validP_cases in V. rewrite E. tauto.
+  pose proof (ds_valid _ _ D Hy) as Vy. apply validP_cases in Vy. apply validP_cases in V. rewrite E in *. tauto.
 Qed.
 
 Lemma update_spec T tot r :
@@ -291,7 +291,7 @@ Qed.
 
 (* ---- remove ---- *)
 Lemma rt_len_zero T tot : (rt_len (RT T tot) =? 0) = true -> T = [].
-Proof. unfold rt_len; cbn. destruct T; [reflexivity|]. cbn. intros H. apply Z.eqb_eq in H. lia. Qed.
+Proof. unfold rt_len; cbn. destruct T; [reflexivity|]. cbn. intros H. discriminate H. Qed.
 
 Lemma remove_sub T q tot x :
   ds T -> In x T ->
